@@ -250,10 +250,62 @@ fn run_conv(ty: &str, n: u64) -> String {
     if bad.is_empty() { "(conv ok)".to_string() } else { format!("(conv BAD {})", bad.join(",")) }
 }
 
+fn unhex(h: &str) -> Vec<u8> {
+    if h == "-" { return Vec::new(); }
+    (0..h.len() / 2).map(|k| u8::from_str_radix(&h[2 * k..2 * k + 2], 16).unwrap_or(0)).collect()
+}
+
+/// defrag <op>...  op = P,ty,ver,len,hex | N,ty,ver,len,hex | R
+fn run_defrag(toks: &[String]) -> String {
+    // every record's data lives in its own exact-size heap allocation for the whole history
+    let datas: Vec<Box<[u8]>> = toks.iter().map(|t| {
+        let f: Vec<&str> = t.split(',').collect();
+        if f.len() >= 5 { unhex(f[4]).into_boxed_slice() } else { Vec::new().into_boxed_slice() }
+    }).collect();
+    let mut parser = TlsRecordsParser::default();
+    let mut out = String::from("(defrag");
+    for (k, t) in toks.iter().enumerate() {
+        let f: Vec<&str> = t.split(',').collect();
+        let res: String;
+        if f.len() < 5 {
+            parser.reset();
+            res = "(reset)".to_string();
+        } else {
+            let hdr = TlsRecordHeader {
+                record_type: TlsRecordType(f[1].parse::<u64>().unwrap_or(0) as u8),
+                version: TlsVersion(f[2].parse::<u64>().unwrap_or(0) as u16),
+                len: f[3].parse::<u64>().unwrap_or(0) as u16,
+            };
+            let data: &[u8] = &datas[k];
+            let record = TlsRawRecord { hdr, data };
+            let abs = Ctx { base: 0, len: 0, buf_base: 0, buf_len: 0, abs: true };
+            let nocopy = f[0] == "N";
+            let raw = match std::panic::catch_unwind(std::panic::AssertUnwindSafe(|| {
+                let r = if nocopy { parser.parse_record_nocopy(record) } else { parser.parse_record(record) };
+                if let Ok((_, v)) = &r { let _ = format!("{:?}", v); }
+                show::res(&abs, r, show::msgs)
+            })) {
+                Ok(s) => s,
+                Err(_) => {
+                    out.push_str(&format!(" [(panic) {} {}])", if parser.defrag_in_progress() { 1 } else { 0 }, parser.verif_defrag_buffer().len()));
+                    return out;
+                }
+            };
+            let buf = parser.verif_defrag_buffer();
+            let ctx = Ctx { base: data.as_ptr() as usize, len: data.len(), buf_base: buf.as_ptr() as usize, buf_len: buf.len(), abs: false };
+            res = sx::fixup(&raw, &ctx);
+        }
+        out.push_str(&format!(" [{} {} {}]", res, if parser.defrag_in_progress() { 1 } else { 0 }, parser.verif_defrag_buffer().len()));
+    }
+    out.push(')');
+    out
+}
+
 pub fn run_history(name: &str, toks: &[String]) -> String {
     let num = |k: usize| -> u64 { toks.get(k).and_then(|s| s.parse().ok()).unwrap_or(0) };
     match name {
         "states" => run_states(toks),
+        "defrag" => run_defrag(toks),
         "@nt" => run_nt(toks.get(0).map(|s| s.as_str()).unwrap_or(""), num(1)),
         "@conv" => run_conv(toks.get(0).map(|s| s.as_str()).unwrap_or(""), num(1)),
         "@sig" => { let s = SignatureScheme(num(0) as u16); format!("(sig {} {} {})", s.hash_alg(), s.sign_alg(), s.is_reserved()) }
